@@ -158,6 +158,9 @@ def _run(ev, work, thorough):
         raise T.TLCError("Categorical last-dictionary-wins variant must violate LabelsPreserved")
     ev.add_tlc("Categorical, RemapCodes=FALSE (as found): LabelsPreserved violated", r0)
     ccases, cres = C.export_cases(work, 3 if thorough else 2, 2)
+    if thorough:
+        # every sequence of one or two batches, every fourth of the three-batch sequences
+        ccases = [c for i, c in enumerate(ccases) if len(c["rgs"]) < 3 or i % 4 == 0]
     ev.add_tlc("CategoricalMC export: per-file dictionaries", cres, cases=len(ccases))
     cj, cr = C.run_cases(ccases, work, ("files",))
     for j, r in zip(cj, cr):
